@@ -175,6 +175,40 @@ Section Tokens.
   Notation room := (PrintLemmas.room oracle).
   Notation ensure := (PrintDefs.ensure oracle junk).
 
+  (** the common shape of every fixed token: ensure(k), then at most k bytes through the pointer *)
+  Lemma write_token (p : printbuffer) (T l : bytes) (k : Z) :
+    text_at p T -> 0 <= k -> zlen l <= k ->
+    exists ok p1, ensure p k = Ok (ok, p1) /\ frame p p1 /\ (room p (zlen T + k + 1) -> ok = true) /\
+      (ok = true -> pb_depth p1 = pb_depth p /\
+         exists p2, put p1 0 l = Ok p2 /\ frame p p2 /\ grown p p2 /\ pb_depth p2 = pb_depth p /\ pb_offset p2 = zlen T /\
+                    zlen T + k + 1 <= pb_length p2 /\
+                    (forall a b, l = a ++ b -> text_at (set_offset p2 (pb_offset p2 + zlen a)) (T ++ a)) /\
+                    (forall a, l = a ++ [0] -> done p2 T a)).
+  Proof.
+    intros HT Hk Hl.
+    destruct (ensure_spec oracle junk p T k HT Hk) as (ok1 & p1 & E1 & F1 & S1 & C1).
+    exists ok1, p1. split; [exact E1|]. split; [exact F1|]. split; [exact C1|].
+    intros ->. destruct (S1 eq_refl) as ((rest1 & B1 & O1 & _) & Len1 & D1 & G1).
+    split; [exact D1|].
+    assert (HR1 : k + 1 <= zlen rest1) by (destruct B1 as (_ & B1); lia).
+    destruct (put_spec p1 T rest1 l 0 B1 ltac:(lia) ltac:(lia)) as (rest2 & p2 & E2 & P2 & B2).
+    exists p2. split; [exact E2|].
+    assert (L2 : zlen rest2 = zlen rest1 - zlen l).
+    { destruct B1 as (_ & B1). destruct B2 as (_ & B2). subst p2. cbn in B2. rewrite zlen_app in B2. lia. }
+    split; [subst p2; exact F1|]. split; [subst p2; exact G1|]. split; [subst p2; exact D1|]. split; [subst p2; exact O1|].
+    split; [subst p2; cbn; lia|].
+    destruct B2 as (B2a & B2b). split.
+    - intros a b ->. exists (b ++ rest2). split; [split|split].
+      + cbn. rewrite B2a. f_equal. norm_list. reflexivity.
+      + cbn. rewrite !zlen_app in *. lia.
+      + cbn. subst p2. cbn. rewrite O1, zlen_app. reflexivity.
+      + rewrite !zlen_app in *. pose proof (zlen_nonneg b). lia.
+    - intros a ->. exists rest2. split; [split|].
+      + rewrite B2a. f_equal. norm_list. reflexivity.
+      + rewrite !zlen_app, zlen_cons, zlen_nil in *. lia.
+      + subst p2. cbn. rewrite O1. pose proof (zlen_nonneg a). lia.
+  Qed.
+
   (** [f] prints exactly [txt] (and a terminator), or fails for lack of room only *)
   Definition prints (f : printbuffer -> res (bool * printbuffer)) (txt : bytes) : Prop :=
     forall p T, text_at p T ->
